@@ -36,7 +36,7 @@ for obf in range(5):
     for form in (["string", "slice"] if tier == "quick" else FORMS_T):
         for dlen in [7, 8, 255, 256, 257, 2048, 2049]:
             for cls in (["allbytes", "quotes"] if tier == "quick" else ["allbytes", "nul", "ff", "quotes", "utf8bad", "text"]):
-                bases = ["zero", "max", "count", "prng:7"] if tier == "quick" else ["zero", "max", "count"] + ["prng:%d" % s for s in range(16)]
+                bases = ["zero", "max", "prng:7"] if tier == "quick" else ["zero", "max", "count"] + ["prng:%d" % s for s in range(16)]
                 if dlen in (7, 2049): bases = ["prng:1"]
                 if tier == "quick" and dlen >= 2048 and cls != "allbytes": continue
                 for base in bases:
@@ -58,6 +58,8 @@ gens = pmap(gen, range(nshard_in))
 instances = sum(r["instances"] for _, r in gens)
 draws = sum(r["draws_total"] for _, r in gens)
 untouched = sum(r["untouched_ok"] for _, r in gens)
+inconclusive = [d for _, r in gens for d in (r.get("inconclusive") or [])]
+if inconclusive: log("inconclusive (scripted stream made the obfuscator loop past the draw budget): %d, e.g. %s" % (len(inconclusive), inconclusive[:3]))
 site_dev, site_vals = {}, {}
 for od, r in gens:
     for s, n in (r["site_deviations"] or {}).items(): site_dev[s] = site_dev.get(s, 0) + n
@@ -171,7 +173,7 @@ func main() {
 	f := func() string { return "closure literal 29" }
 	defer fmt.Println("deferred literal 30")
 	go func(s string) {}("goroutine literal 31")
-	fmt.Println(f(), lib.Get(), lib.Table[1], lib.Raw, len(os.Args))
+	fmt.Println(f(), lib.Get(), lib.Table[1], lib.Raw, len(os.Args), lib.Injected, lib.InjectedUnexp())
 	fmt.Printf("%s %q\n", "format arg literal 32", "quoted\tliteral\n33 \x00\xff")
 	var iface any = "interface literal 34"
 	fmt.Println(iface, []string{"composite elem 35"}[0], [...]string{"array elem 36"}[0], strings.Repeat("ab", 4)+"concat with call 37")
@@ -188,6 +190,12 @@ const Raw = `lib raw constant 42`
 
 var hidden = "lib hidden value 43"
 
+var Injected = "lib default for injected var 45"
+
+var injectedUnexp = "lib default for unexported injected var 46"
+
+func InjectedUnexp() string { return injectedUnexp }
+
 func Get() string { return hidden + "/" + string([]byte{'l', 'i', 'b', ' ', 'b', 'y', 't', 'e', 's', ' ', '4', '4'}) }
 '''
 e2e = 0
@@ -195,7 +203,7 @@ def e2e_case(case):
     binp, gflags, env, tag = case
     d = g.newdir("e2e")
     write_module(d, {"main.go": CTX + "// " + tag + "\n", "lib/lib.go": LIB}, modpath="example.com/c05e")
-    ld = "-ldflags=-X=main.xSet=injected_value_99"
+    ld = "-ldflags=-X=main.xSet=injected_value_99 -X=example.com/c05e/lib.Injected=lib_injected_77 -X=example.com/c05e/lib.injectedUnexp=lib_injected_78"
     p0 = g.go(["build", "-o", "plain", ld, "."], d)
     gg = Garble(binpath=binp, name="c05") if binp else g
     p = gg.garble(gflags, "build", ["-o", "out", ld, "."], d, extra_env=env)
@@ -210,8 +218,9 @@ def e2e_case(case):
 cases = []
 tb = build_garble(tags="garble_testing", name="garble-testing")
 for k in range(5):
+    if tier == "quick" and k not in (SEED % 5, (SEED + 2) % 5): continue   # each forced obfuscator is a separate garbled std; quick takes two, rotated by VERIF_SEED
     for sd in (["-seed=AAAAAAAAAAA"] if tier == "quick" else ["-seed=AAAAAAAAAAA", "-seed=BBBBBBBBBBBB", "-seed=c2VlZHNlZWRzZWVk"]):
-        cases.append((tb, ["-literals"] + sd, {"GARBLE_TEST_LITERALS_OBFUSCATOR_MAP": "main=%d,lib=%d" % (k, k)}, "forced-%s %s" % (OBFNAMES[k], sd[0])))
+        cases.append((tb, ["-literals", sd], {"GARBLE_TEST_LITERALS_OBFUSCATOR_MAP": "main=%d,lib=%d" % (k, k)}, "forced-%s %s" % (OBFNAMES[k], sd)))
 for sd in ([[], ["-seed=AAAAAAAAAAA"]] if tier == "quick" else [[], ["-tiny"]] + [["-seed=" + base64.b64encode(bytes([i] * 9)).decode().rstrip("=")] for i in range(1, 9)]):
     cases.append((None, ["-literals"] + sd, None, "mixed " + " ".join(sd)))
 for res in pmap(e2e_case, cases, workers=6):
@@ -229,6 +238,6 @@ R.finish({
                 2 if tier == "quick" else 4, 5 if tier == "quick" else 11),
     "samples": [gens[0][1]["descs"][i] for i in range(0, min(len(gens[0][1]["descs"]), 400), 57)][:8],
     "combos": len(combos), "draws_on_base_traces": draws, "rand_call_sites_deviated": len(site_dev), "site_deviations": site_dev,
-    "site_distinct_values": site_vals, "shards_compiled": compiled, "shards": len(shards), "out_of_window_untouched": untouched, "e2e_cases": e2e,
+    "site_distinct_values": site_vals, "shards_compiled": compiled, "shards": len(shards), "out_of_window_untouched": untouched, "inconclusive_draw_budget": len(inconclusive), "inconclusive_examples": inconclusive[:5], "e2e_cases": e2e,
 }, assumptions=["the gc compiler and runtime evaluate the emitted decode code faithfully", "draw values outside the 11-value alphabet and >2 simultaneous deviations are covered only through the PRNG base streams"],
    exhaustive=True)
